@@ -46,7 +46,8 @@ def run(ctx):
         rej = vlib.validate_trace(ctx, "MerkleTrace", ev, chunk=40, label="T_escalate")
         ctx.events, ctx.traces = n0, t0
         return vlib.reproduce(ctx, binp, rej, history=ev)
-    for e in vlib.settle_whitebox(ctx, conf, {"merkle.lp2"}, escalate, label="merkle"):
+    for e in vlib.settle_whitebox(ctx, conf, {"merkle.lp2"}, escalate, label="merkle", wb_all=[x for x in g + t if x["op"] == "merkle.lp2"],
+                                  reachable=lambda e: e["in"].get("n", 10 ** 9) <= 70000):
         ctx.bad.append(dict(event=e, reason="real merkle.Hasher disagrees with the Merkle specification"))
     return vlib.finish(ctx, LEVEL, RULE, ASSUME,
                        technique="TLA+ spec Merkle over a free term algebra; TLC model n<=64; recording crypto.Hash traces rebuilt as terms by TLC; spec-chosen shapes folded with real hashes")
